@@ -13,6 +13,7 @@ import (
 	"k8s.io/apiextensions-apiserver/pkg/apiserver/schema/defaulting"
 	apiservervalidation "k8s.io/apiextensions-apiserver/pkg/apiserver/validation"
 	"k8s.io/apimachinery/pkg/runtime"
+	utiljson "k8s.io/apimachinery/pkg/util/json"
 	"k8s.io/apimachinery/pkg/util/validation/field"
 	celconfig "k8s.io/apiserver/pkg/apis/cel"
 
@@ -80,7 +81,9 @@ func Admit[T runtime.Object](obj T, out T) ([]string, error) {
 		return nil, err
 	}
 	var u map[string]any
-	if err := json.Unmarshal(raw, &u); err != nil {
+	// apimachinery's decoder turns integral JSON numbers into int64 like the API server does; with encoding/json they
+	// stay float64 and every CEL rule that touches an integer field (minValues, replicas, weight) fails to evaluate.
+	if err := utiljson.Unmarshal(raw, &u); err != nil {
 		return nil, err
 	}
 	u["apiVersion"] = "karpenter.sh/v1"
